@@ -25,7 +25,7 @@ def con_s(con):
 ONE_DIM = ["gss", "brent", "brentin", "newton1", "nback"]
 MULTI = ["simple", "snewton", "powell", "simplex", "cg", "bfgs", "meta"]
 # kinds whose model is run by the driver (bit-exact tie); the others are explored through the predicates only
-MODELLED = set(["gss", "brent", "brentin", "nback", "newton1", "simple", "snewton", "simplex", "powell", "cg", "bfgs"])
+MODELLED = set(["gss", "brent", "brentin", "nback", "newton1", "simple", "snewton", "simplex", "powell", "cg", "bfgs", "meta"])
 
 
 def rand_orth(r, n):
